@@ -6,6 +6,7 @@ import warnings
 import impl
 import gen
 from abstraction import concrete_steps_to_trace
+import hooks as hooks_mod
 from hooks import guarded, _webentities
 
 
@@ -174,8 +175,17 @@ def run_coop(seed, profile, backend, tid, hook=None):
         with always_yield():
             obs = snap("Init", None)
             steps[0].pop("res")
-            for i in range(setup_n):
+            reattr = rng.random() < 0.5
+            for i in range(setup_n + (1 if reattr else 0)):
                 op = d.draw(obs)
+                if i == setup_n:
+                    # the last setup request re-attributes an existing prefix without creating a webentity
+                    wmap = {}
+                    for l_, w_ in obs["we"]:
+                        wmap.setdefault(w_, []).append(l_)
+                    op = (d.make(rng.choice(["MovePrefix", "RemovePrefix", "AddPrefix", "DeleteWe"]), wmap)
+                          if wmap else None) or op
+                    d.note(op)
                 if op["op"] in ("Reopen", "Clear", "Paginate", "PagLinks"):
                     continue
                 ops.append(op)
@@ -184,6 +194,11 @@ def run_coop(seed, profile, backend, tid, hook=None):
                 obs = snap(op, res)
                 if "err" in obs:
                     break
+                # plain queries of every kind between the setup requests (what they leave behind in
+                # long-lived objects is there when the generators run); same in replay_coop
+                hooks_mod.note_pool(ix, op)
+                hooks_mod.query_noise(ix, None, len(ops))
+                del impl.WRITE_LOG[:]
             # the generator requests
             descr = []
             for _ in range(ncrawl):
@@ -310,6 +325,7 @@ def replay_coop(backend, default, rules, ops, tid=0):
             pages0 = outs0 = we0 = None
             n_next = sum(1 for o in ops if o["op"] == "CoopNext")
             seen_next = 0
+            nset = 0
             for op in ops:
                 del impl.WRITE_LOG[:]
                 if op["op"] == "CoopBegin":
@@ -359,6 +375,10 @@ def replay_coop(backend, default, rules, ops, tid=0):
                 else:
                     res = impl.apply_op(ix, op)
                     obs = snap(op, res)
+                    nset += 1
+                    hooks_mod.note_pool(ix, op)
+                    hooks_mod.query_noise(ix, None, nset)
+                    del impl.WRITE_LOG[:]
     finally:
         ix.destroy()
     tsteps, abort = concrete_steps_to_trace(steps)
